@@ -66,7 +66,11 @@ fn gen_desc(r: &mut Rng, name: &str) -> Desc {
     let nip = *r.pick(&[0usize, 0, 1, 1, 2, 3, 5]);
     let mut ips: Vec<IpAddr> = Vec::new();
     for _ in 0..nip {
-        let ip = if r.bool() {
+        let ip = if r.chance(1, 8) {
+            // IPv6 addresses that embed an IPv4 one (mapped / compatible): they are IPv6 addresses and must stay so
+            let v4 = Ipv4Addr::new(*r.pick(&[10u8, 192, 127]), r.u8(), r.below(3) as u8, r.below(4) as u8);
+            if r.bool() { IpAddr::V6(v4.to_ipv6_mapped()) } else { IpAddr::V6(v4.to_ipv6_compatible()) }
+        } else if r.bool() {
             IpAddr::V4(Ipv4Addr::new(*r.pick(&[10u8, 192, 0, 255]), r.u8(), r.below(3) as u8, r.below(4) as u8))
         } else {
             let mut s = [0u16; 8];
